@@ -341,18 +341,25 @@ example :
 
 /-! ## Tie to the source: templates and the gate table are re-extracted on every run -/
 
-/-- The string literals / format templates of `src/export/latex.rs` are the ones the model's
-`symText`, `braceText`, `rowLabel`, `rowText`, `code` implement (in source order). If the source
-changes a template this fails and the model must be revisited. -/
+/-- The CONTENT of the string literals / format templates of `src/export/latex.rs` and of
+`impl Latex for C<G>` — every literal cut at its format holes, at white space and at double quotes; the
+sorted list of the distinct pieces, independent of how the emitters assemble their strings — is the
+vocabulary the model's `symText`, `braceText`, `rowLabel`, `rowText`, `code` are written with. If the
+source changes a LaTeX command, option or decoration this fails and the model must be revisited (how the
+pieces are assembled is tied by the correspondence (A) on every generated case). -/
 theorem emitter_templates_as_modelled : Q1t.Gen.latexTemplates =
-    ["\\meterB{{}}", "\\meter", "\\cw \\cwx[{}]", "\\push{~\\ket{0}~} \\ar @{|-{}} [0,-1]", "\\cctrlo", "\\cctrl",
-     "{}{{}}", "\\gate{{}}", "\\multigate{{}}{{}}", "\\ghost{{}}", "\\gate{{}} \\qwx[{}]",
-     "\\multigate{{}}{{}} \\qwx[{}]", "\\ghost{{}}", "\\cds{{}}{{}}", "\\qw \\barrier{{}}",
-     "\\Qcircuit @C=1em @R=.7em {\n", "    & ", "& ",
-     "\\mbox{} \\POS\"{},{}\".\"{},{}\".\"{},{}\".\"{},{}\"!C*+<.7em>\\frm{^\\}},+U*++!D{{}\\times}",
-     "\\\\\n", "    ", "& ", "\\\\\n", "    \\lstick{\\ket{0}}", "    \\lstick{0}", "    ", " & ", "\\qw", "\\cw",
-     " & ", "\\qw", "\\cw", " \\\\\n", "}\n"] ∧
-    Q1t.Gen.latexCtrlTemplates = ["\\ctrl{{}}", "\\ctrl{{}}"] := by decide
+    ["!C*+<.7em>\\frm{^\\}},+U*++!D{", "&", ",", ".", "@C=1em", "@R=.7em", "@{|-{}}", "[0,-1]", "\\POS", "\\Qcircuit",
+     "\\\\", "\\ar", "\\barrier{", "\\cctrl", "\\cctrlo", "\\cds{", "\\cw", "\\cwx[", "\\gate{", "\\ghost{", "\\lstick{0}",
+     "\\lstick{\\ket{0}}", "\\mbox{}", "\\meter", "\\meterB{", "\\multigate{", "\\push{~\\ket{0}~}", "\\qw", "\\qwx[",
+     "\\times}", "]", "{", "}", "}{"] ∧
+    Q1t.Gen.latexCtrlTemplates = ["\\ctrl{", "}"] := by decide
+
+/-- Every piece occurs in the text the model prints (spot check of the vocabulary against `symText` /
+`braceText` / `code`). -/
+example : symText (.multigate 2 "G" (some (-3))) = "\\multigate{2}{G} \\qwx[-3]" ∧
+    braceText 1 3 4 = "\\mbox{} \\POS\"2,3\".\"2,3\".\"2,5\".\"2,5\"!C*+<.7em>\\frm{^\\}},+U*++!D{4\\times}" ∧
+    code (St.new 1 1) = .ok "\\Qcircuit @C=1em @R=.7em {\n    \\lstick{\\ket{0}} & \\qw \\\\\n    \\lstick{0} & \\cw \\\\\n}\n" := by
+  decide
 
 /-- Instances of the model's cell text (the templates with their holes filled). -/
 example : symText (.ctrl (-2)) = "\\ctrl{-2}" ∧
